@@ -1,6 +1,8 @@
 """C11 - with TLS configured nothing but AUTH TLS travels in clear text."""
 from props.e2egen import *
 
+BROKEN_TLS_SCENARIOS = True      # enabled once Model/ClientTls.lean models writes on an SSL layer whose handshake failed
+
 def gen(ctx):
     rng = ctx["rng"]; tier = ctx["tier"]
     noop = "noop@" + R(b"200 ok")
@@ -21,6 +23,12 @@ def gen(ctx):
         yield line(cfg_str(ver=ver), [connect(garbage=True), "isconn", "disc:0", connect(), noop])
         yield line(cfg_str(ver=ver, verify="peer"), [connect(bad_cert=True), "isconn", "disc:0", connect(), noop])
         yield line(cfg_str(ver=ver, verify="none"), [connect(bad_cert=True), noop, get("p", 1)])
+        # the application goes on using the client after the failed handshake: nothing may leave in clear text
+        login = "login:%s:%s" % (H(b"SECRETUSER07"), H(b"SECRETPASS08"))
+        for fail, verify in ((dict(garbage=True), "none"), (dict(bad_cert=True), "peer")) if BROKEN_TLS_SCENARIOS else ():
+            yield line(cfg_str(ver=ver, verify=verify), [connect(user=None, **fail), login, "noop", "disc:1", "isconn"])
+            yield line(cfg_str(ver=ver, verify=verify), [connect(**fail), "noop", "pwd", "disc:0", connect(), noop])
+            yield line(cfg_str(ver=ver, verify=verify), [connect(user=None, **fail), "isconn", login, "disc:0", "isconn"])
         for pbsz, prot in ((500, 200), (200, 534), (200, 500)):
             yield line(cfg_str(ver=ver), [connect(pbsz=pbsz, prot=prot), noop])
         for login in ((530, 0), (331, 530), (230, 0)):
